@@ -819,6 +819,48 @@ private:"""),
     convex(convexity::yes);"""),
     dict(property="C20", name="histogram-ctor-does-not-sort-thresholds", rule="R-C20-5", file="include/nano/core/histogram.h", tu="src/core/histogram.cpp",
          old="        std::sort(std::begin(m_thresholds), std::end(m_thresholds));\n\n        update(begin, end);", new="        update(begin, end);"),
+    # ---- C12
+    dict(property="C12", name="kfold-last-fold-drops-remainder", rule="R-C12-1", file="src/splitter/kfold.cpp",
+         old="const auto valid_end   = (fold + 1 < folds) ? (valid_begin + chunk) : samples.size();", new="const auto valid_end   = valid_begin + chunk;"),
+    dict(property="C12", name="kfold-chunk-rounded-up", rule="R-C12-1", file="src/splitter/kfold.cpp",
+         old="const auto chunk       = samples.size() / folds;", new="const auto chunk       = (samples.size() + folds - 1) / folds;"),
+    dict(property="C12", name="kfold-train-tail-overlaps-validation", rule="R-C12-1", file="src/splitter/kfold.cpp",
+         old="            world.segment(valid_end, world.size() - valid_end);", new="            world.segment(valid_begin, world.size() - valid_end);"),
+    dict(property="C12", name="kfold-validation-not-sorted", rule="R-C12-3", file="src/splitter/kfold.cpp",
+         old="        std::sort(std::begin(valid), std::end(valid));\n", new=""),
+    dict(property="C12", name="kfold-unseeded-rng", rule="R-C12-4", file="src/splitter/kfold.cpp",
+         old="std::shuffle(std::begin(samples), std::end(samples), make_rng(seed));", new="std::shuffle(std::begin(samples), std::end(samples), make_rng());"),
+    dict(property="C12", name="random-validation-overlaps-training", rule="R-C12-2", file="src/splitter/random.cpp",
+         old="valid.vector() = samples.vector().segment(train_size, valid_size);", new="valid.vector() = samples.vector().segment(0, valid_size);"),
+    dict(property="C12", name="random-train-size-truncated", rule="R-C12-2", file="src/splitter/random.cpp",
+         old="const auto train_size = idiv(train_perc * samples.size(), 100);", new="const auto train_size = train_perc * samples.size() / 100;"),
+    dict(property="C12", name="random-seed-from-folds", rule="R-C12-4", file="src/splitter/random.cpp",
+         old="    auto rng = make_rng(seed);", new="    auto rng = make_rng(static_cast<uint64_t>(folds));"),
+    dict(property="C12", name="idiv-truncates", rule="R-C12-2", file="include/nano/core/numeric.h", tu="src/splitter/random.cpp",
+         old="    return (nominator + static_cast<tnominator>(denominator) / 2) / static_cast<tnominator>(denominator);", new="    return nominator / static_cast<tnominator>(denominator);"),
+    dict(property="C12", name="with-replacement-position-range-too-wide", rule="R-C12-5", file="src/core/sampling.cpp",
+         old="auto udist = make_udist<tensor_size_t>(0, samples.size() - 1);", new="auto udist = make_udist<tensor_size_t>(0, samples.size());"),
+    dict(property="C12", name="with-replacement-not-sorted", rule="R-C12-3", file="src/core/sampling.cpp",
+         old="""    std::generate(std::begin(selection), std::end(selection), [&]() { return samples(udist(rng)); });
+    std::sort(std::begin(selection), std::end(selection));""", new="""    std::generate(std::begin(selection), std::end(selection), [&]() { return samples(udist(rng)); });"""),
+    dict(property="C12", name="weighted-sampling-returns-position", rule="R-C12-5", file="src/core/sampling.cpp",
+         old="[&]() { return samples(wdist(rng)); }", new="[&]() { return wdist(rng); }"),
+    dict(property="C12", name="without-replacement-shuffles-input-view", rule="R-C12-5", file="src/core/sampling.cpp",
+         old="""    auto samples = indices_t{samples_};
+    std::shuffle(std::begin(samples), std::end(samples), rng);
+
+    auto selection = samples.slice(0, count);""",
+         new="""    auto samples = indices_t{samples_};
+    auto selection = samples.slice(0, count);
+    std::sort(std::begin(selection), std::end(selection));
+    std::shuffle(std::begin(samples), std::end(samples), rng);
+"""),
+    dict(property="C12", name="gboost-sampler-grad-weight-by-position", rule="R-C12-6", file="src/gboost/sampler.cpp",
+         old="m_weights(i) = gradients.vector(m_samples(i)).lpNorm<2>();", new="m_weights(i) = gradients.vector(i).lpNorm<2>();"),
+    dict(property="C12", name="ball-normalised-by-max-norm", rule="R-C12-7", file="src/core/sampling.cpp",
+         old="x.array()    = x0.array() + radius * z * x.array() / x.lpNorm<2>();", new="x.array()    = x0.array() + radius * z * x.array() / x.lpNorm<Eigen::Infinity>();"),
+    dict(property="C12", name="ball-scale-above-one", rule="R-C12-7", file="src/core/sampling.cpp",
+         old="const auto z = std::pow(scale_dist(rng), 1.0 / static_cast<scalar_t>(n));", new="const auto z = 1.0 + std::pow(scale_dist(rng), 1.0 / static_cast<scalar_t>(n));"),
     # ---- C16
     dict(property="C16", name="index0-stride-off-by-one-dimension", rule="R-C16-1", file="include/nano/tensor/dims.h", tu="src/core/sampling.cpp",
          old="    return index * product<idim + 1>(dims) + get_index0<idim + 1>(dims, indices...);", new="    return index * product<idim>(dims) + get_index0<idim + 1>(dims, indices...);"),
@@ -1055,4 +1097,12 @@ BENIGN = [
          new="""    explicit tensor_vector_storage_t(const tensor_marray_storage_t<tscalar, trank>& other)
         : tbase(other.dims())
         , m_data(map_vector(other.data(), size()))"""),
+    dict(property="C12", name="kfold-valid-end-rewritten", file="src/splitter/kfold.cpp",
+         old="const auto valid_end   = (fold + 1 < folds) ? (valid_begin + chunk) : samples.size();", new="const auto valid_end   = (fold + 1 == folds) ? samples.size() : ((fold + 1) * chunk);"),
+    dict(property="C12", name="kfold-sorts-swapped", file="src/splitter/kfold.cpp",
+         old="""        std::sort(std::begin(train), std::end(train));
+        std::sort(std::begin(valid), std::end(valid));""", new="""        std::sort(std::begin(valid), std::end(valid));
+        std::sort(std::begin(train), std::end(train));"""),
+    dict(property="C12", name="random-valid-size-inlined", file="src/splitter/random.cpp",
+         old="valid.vector() = samples.vector().segment(train_size, valid_size);", new="valid.vector() = samples.vector().segment(train_size, samples.size() - train_size);"),
 ]
